@@ -247,6 +247,7 @@ class RecordingAdapter:
                 (b is None) or (not np.array_equal(b, s.mom)) for b, s in zip(mom_before, [s for s in cs if "mom" in s])
             ],
             rng_advanced=[b != rng_digest(r) for b, r in zip(rng_before, rl)],
+            rng_before=rng_before,
             adapt_states=_adapt_states_summary(as_copy),
             metric_array=_metric_array(getattr(transition, "system", None)),
             states_after=[snap_state(s_) for s_ in cs],
